@@ -93,11 +93,15 @@ def ents(l):
                     f'{e.description.lr_type},{e.description.ld_length}' for e in l) or '-'
 
 
+KEPT = []      # FileLogicalData objects returned by the fetches of the history being played (inspected again afterwards)
+
+
 def fetch_canon(f, call):
     """run one fetch on the implementation: (canonical string, bytes or None, error class or None, reads)"""
     f.reads = []
     try:
-        got = call().logical_data.bytes
+        obj = call(); got = obj.logical_data.bytes
+        KEPT.append(obj)
         return f'ok {hx(got)} {norm(f.reads)}', got, None, f.reads
     except Exception as e:
         return 'err:' + type(e).__name__, None, type(e).__name__, f.reads
@@ -139,11 +143,24 @@ def play(sul, records, layout, history, b=None):
         want = (typ, eflr, t['vr_pos'], t['lrsh_pos'], sum(s[2] for s in t['segs']))
         if got != want:
             bad.append((-1, f'index entry {k}: (type, is_eflr, vr_pos, lrsh_pos, ld_length) = {got}, written {want}')); break
+    del KEPT[:]; kept = []
     for i, (k, off, ln) in enumerate(history):
+        n0 = len(KEPT)
         s, got, err, reads = fetch_canon(f, lambda: idx.get_file_logical_data(k, off, ln))
         outs.append(s)
         d = oracle_fetch(records[k][2], tab[k]['vrs'], off, ln, got, err, reads)
         if d: bad.append((i, f'fetch #{i} (record {k}, offset {off}, length {ln}): {d}'))
+        elif len(KEPT) > n0 and off >= 0 and len(kept) < 300: kept.append((i, KEPT[-1], k, off, ln))
+    # aliasing: the objects returned earlier, inspected only now (after all the later fetches on the same reader)
+    for i, o, k, off, ln in kept:
+        eflr, typ, p = records[k]
+        want = (eflr, typ, layout[k][0]['enc'], p[off:] if ln < 0 else p[off:off + ln], tab[k]['vr_pos'], tab[k]['lrsh_pos'])
+        try: got = (o.lr_is_eflr, o.lr_type, o.lr_is_encrypted, o.logical_data.bytes, o.position.vr_position, o.position.lrsh_position)
+        except Exception as e: got = repr(e)
+        if got != want:
+            bad.append((len(history) - 1, f'the object returned by fetch #{i} (record {k}, offset {off}, length {ln}), inspected after the '
+                                          f'whole history, says (is_eflr, type, encrypted, vr_pos, lrsh_pos, {len(want[3])} bytes) = '
+                                          f'{got[:3] + got[4:] if isinstance(got, tuple) else got}, written {want[:3] + want[4:]}')); break
     try:
         full = [idx.get_file_logical_data(k).logical_data.bytes for k in range(len(idx))]
         with File.FileRead(io.BytesIO(b)) as fr:
